@@ -2,6 +2,7 @@ import AITB.Model.Proto
 import AITB.Model.Prune
 import AITB.Model.Interp
 import AITB.Model.C12Check
+import AITB.Model.UsefulPoints
 open AITB AITB.Prune AITB.Interp AITB.C12Check
 
 namespace DrvC12
@@ -133,6 +134,11 @@ def bup : P String := do
   let v := v.failIf (ids.eraseDups.length != ids.length) "extractBestUsefulPoints two_points_for_one_hyperplane"
   let v := v.failIf (pts.any (fun p => !(ids.contains (idOf p)))) "extractBestUsefulPoints supported_hyperplane_lost"
   let v := v.failIf (kept.any (fun q => pts.any (fun p => idOf p == idOf q && decide (valOf q + tiny M < valOf p)))) "extractBestUsefulPoints not_the_best_point_of_its_hyperplane"
+  -- L2b: the model (AITB.Model.UsefulPoints; contract proved in Props/C12UsefulPoints) must reproduce the array slot for slot,
+  -- unless two supporters of one hyperplane have different values within 1e-9 (`bestValues[vId].second < value` decided by rounding)
+  let m := AITB.UsefulPoints.extractBestUsefulPoints idOf valOf nV pts
+  let nearVal := pts.any (fun p => pts.any (fun q => idOf p == idOf q && valOf p != valOf q && decide (absQ (valOf p - valOf q) < tiny M)))
+  let v := v.diffIf (!nearVal && (m.1 ++ m.2 != arr || m.1.length != k)) s!"extractBestUsefulPoints model_kept={m.1.length} impl_kept={k}"
   return v.render
 
 /-- `ed S n vecs | e arr certs` -/
@@ -337,6 +343,26 @@ def lpi : P String := do
         v.diffIf (!okW) s!"{comp} weights model={showVec mw} impl={showVec w}"
       | _ => v
     let v := clausesCommon comp i cv value w v
+    -- LP branch: is the observed LP answer certified eps-optimal for the LP the model poses (`lpCertOK`, sound by
+    -- `lpCertOK_eps_optimal`; with it `lpinterp_optimal_certified_eps` applies to this instance with no assumption on lp_solve)?
+    -- The float answer is first made exactly feasible (scaled down, objective recomputed), the dual multipliers are
+    -- y_s = cornerVals_s - h_s for the shifted dual hyperplane h of the harness's certificate.
+    let nonZero := idxWhere (fun x => !isZeroS x) i.point
+    let cpts := compat.map (fun j => i.pts.getD j [])
+    let inp : LpIn := ⟨nonZero.map (fun s => (cpts.map (fun p => p.getD s 0), i.point.getD s 0)),
+                       compat.map (fun j => i.vals.getD j 0 - dot (sel nonZero (i.pts.getD j [])) (sel nonZero cv))⟩
+    let tolV0 := ((i.S + i.N + 1 : Nat) : Rat) * Gen.equalToleranceSmall * M + tiny M
+    let certified := k ≥ 2 && (match dual with
+      | some h =>
+        let h' := mkDual cv i.pts i.vals h
+        let y := nonZero.map (fun s => cv.getD s 0 - h'.getD s 0)
+        let c0 := result.map (fun x => if x < 0 then 0 else x)
+        let theta := inp.rows.foldl (fun t r => let mm := dot r.1 c0; if r.2 < mm then minQ t (r.2 / mm) else t) 1
+        let c := c0.map (fun x => x * theta)
+        let obj := dot c inp.gains
+        lpCertOK tolV0 inp y (obj, c) && decide (absQ (obj - (value - dot i.point cv)) ≤ tolV0)
+      | none => false)
+    let v := if certified then { v with tag := v.tag ++ " certified" } else v
     -- optimum clause, whenever a stored point shares the query's support
     let (lo, hi) := lpBounds i cv dual primal
     let tolV := ((i.S + i.N + 1 : Nat) : Rat) * Gen.equalToleranceSmall * M + tiny M
@@ -360,7 +386,7 @@ def saw : P String := do
   if out.status != "ok" then return s!"fail {comp} throws_{out.status}"
   let cv := cornerVals i.ubQ
   let M := maxQ (maxAbsL [cv, i.vals]) 1
-  let model := sawtooth srcVariant i.point i.ubQ i.A i.pts i.vals
+  let model := sawtoothG Gen.C12Src.sawGuard srcVariant i.point i.ubQ i.A i.pts i.vals
   -- the as-found source builds the weights from an uninitialised local on some inputs; whatever garbage comes
   -- out is reported under one clause name
   let unspecified := match model with | some ⟨_, none⟩ => true | _ => false
